@@ -1,5 +1,6 @@
 /* E-linuxport: the REAL os/linux/lltd_port.c getters on interface records read from stdin.
- * line: <mac hex12> <MTU> <ifType> <LinkSpeed> <MediumType> <flags>   (decimal u32)
+ * line: <mac hex12> <MTU> <ifType> <LinkSpeed> <MediumType> <flags> <junk>   (decimal u32; junk seeds the content of every
+ *       OTHER field of the record - interface class, indices, socket, session fields - which the property says must not matter)
  * out : rec mac=<hex> mtu=<n> iftype=<n> speed=<n> flags=<n>            (what the port supplies to the core) */
 #include <stdio.h>
 #include <stdlib.h>
@@ -11,9 +12,16 @@
 lltd_global_info_t globalInfo;
 
 int main(void) {
-    char mac[64]; unsigned long mtu, ift, spd, med, fl;
-    while (scanf("%63s %lu %lu %lu %lu %lu", mac, &mtu, &ift, &spd, &med, &fl) == 6) {
+    char mac[64]; unsigned long mtu, ift, spd, med, fl, junk;
+    while (scanf("%63s %lu %lu %lu %lu %lu %lu", mac, &mtu, &ift, &spd, &med, &fl, &junk) == 7) {
         network_interface_t ni; memset(&ni, 0, sizeof(ni));
+        if (junk) {
+            /* every byte of the record from a small generator, then the pointers made harmless and the class one of the five (or not) */
+            uint32_t x = (uint32_t)junk * 2654435761u + 12345u;
+            for (size_t i = 0; i < sizeof(ni); i++) { x = x * 1664525u + 1013904223u; ((uint8_t *)&ni)[i] = (uint8_t)(x >> 24); }
+            ni.seeList = NULL; ni.recvBuffer = NULL; ni.enumerationAutomata = NULL;
+            ni.interfaceType = (junk % 8 < 5) ? (int)(junk % 8) : ni.interfaceType;
+        }
         ni.deviceName = "verif0";
         for (int i = 0; i < 6; i++) { unsigned b; sscanf(mac + 2 * i, "%2x", &b); ni.macAddress[i] = (uint8_t)b; }
         ni.MTU = (uint32_t)mtu; ni.ifType = (uint32_t)ift; ni.LinkSpeed = (uint32_t)spd; ni.MediumType = (uint32_t)med; ni.flags = (uint32_t)fl;
